@@ -171,6 +171,10 @@ def check_desc(res, model, desc, rng, tag, channel_b=False):
             where = f"channel B ({solver}/{method})"
             res.count(f"rendered:{method}")
             mat, csr = c02.rendered_matrix(d, solver, method)
+            if mat is None:
+                res.corr_disagreements += 1
+                res.violation("correspondence", f"{where}: the reader does not understand the rendered Jacobian file ({csr})", case)
+                continue
             per[method] = mat
             NEQ = max(a.nspec + (1 if (a.info.heating or a.info.cooling) else 0), 1)
             if ol.macro_int(macros, "NNZ") != j.nnz or ol.macro_int(macros, "NREACTIONS") != max(len(desc["reactions"]), 1) \
@@ -198,8 +202,10 @@ def check_desc(res, model, desc, rng, tag, channel_b=False):
                     res.corr_disagreements += 1
                     res.violation("correspondence", f"{where}: pattern differs from the model's", case)
         canon_mat = lambda m: {k: " ".join(v.replace("y_cur[", "y[").split()) for k, v in m.items()}
-        ref = canon_mat(per["dense"])
+        ref = canon_mat(per["dense"]) if "dense" in per else None
         for method in ("sparse", "cusparse", "rosenbrock4"):
+            if ref is None or method not in per:
+                continue
             if canon_mat(per[method]) != ref:
                 diff = set(canon_mat(per[method]).items()) ^ set(ref.items())
                 res.violation("oracle", f"channel B: {method} layout differs from dense at {sorted(k for k, _ in diff)[:5]}", case)
